@@ -1178,3 +1178,106 @@ Proof.
     change (ext_piece e :: map ext_piece es) with (map ext_piece (e :: es)).
     rewrite fold_parse_exts by (cbn [forallb]; rewrite He, Hes; reflexivity). reflexivity.
 Qed.
+
+(* ------------------------------------------------------------------ *)
+(* reused parser over a stream of messages                              *)
+(* ------------------------------------------------------------------ *)
+Lemma start_not_done cf cl s b s' r f0 : p_stage s = SStart f0 ->
+  http_step cf cl s b = Adv s' r -> stage_done s' = false.
+Proof.
+  intros Hs H. unfold http_step, fail in H. rewrite Hs in H.
+  repeat match type of H with
+         | context [match ?x with _ => _ end] => destruct x eqn:?
+         | context [if ?x then _ else _] => destruct x eqn:?
+         end; try discriminate; inversion H; subst; reflexivity.
+Qed.
+
+Lemma sess_rank_le s : (sess_rank s <= 2)%nat.
+Proof. unfold sess_rank. destruct (p_stage s); lia. Qed.
+
+Lemma sess_step_dec cf resp hr : forall st b st' r,
+  sess_step cf resp hr st b = Adv st' r -> (sess_mu st' r < sess_mu st b)%nat.
+Proof.
+  intros [s n] b [s2 n2] r H. unfold sess_step in H. cbn [fst snd] in H.
+  destruct (http_step cf false s b) as [s' r'| |] eqn:E; try discriminate.
+  pose proof (http_step_dec cf false _ _ _ _ E) as D. unfold http_mu in D.
+  unfold sess_mu. cbn [fst].
+  pose proof (sess_rank_le s2). pose proof (sess_rank_le s).
+  destruct (Nat.lt_ge_cases (length r') (length b)) as [Hlt|Hge].
+  - destruct (stage_done s'); inversion H; subst; lia.
+  - assert (T' : terminal (p_stage s') = true) by (destruct (terminal (p_stage s')); [reflexivity|destruct (terminal (p_stage s)); lia]).
+    assert (T : terminal (p_stage s) = false) by (destruct (terminal (p_stage s)); [rewrite T' in D; lia|reflexivity]).
+    assert (L : length r' = length b) by (rewrite T', T in D; lia).
+    destruct (stage_done s') eqn:R; inversion H; subst.
+    + assert (K : sess_rank s = 2%nat).
+      { unfold sess_rank. destruct (p_stage s) eqn:Hs; try reflexivity; try discriminate T.
+        rewrite (start_not_done cf false s b s' r first Hs E) in R. discriminate. }
+      rewrite K, L. cbn. lia.
+    + assert (K' : sess_rank s2 = 0%nat) by (unfold sess_rank; destruct (p_stage s2); try discriminate T'; reflexivity).
+      assert (K : (1 <= sess_rank s)%nat) by (unfold sess_rank; destruct (p_stage s); try discriminate T; lia).
+      rewrite K', L. lia.
+Qed.
+
+Lemma sess_step_stable cf resp hr : forall st b st' r c,
+  sess_step cf resp hr st b = Adv st' r -> sess_step cf resp hr st (b ++ c) = Adv st' (r ++ c).
+Proof.
+  intros [s n] b st' r c H. unfold sess_step in *. cbn [fst snd] in *.
+  destruct (http_step cf false s b) as [s' r'| |] eqn:E; try discriminate.
+  rewrite (http_step_stable cf _ _ _ _ c E).
+  destruct (stage_done s'); inversion H; reflexivity.
+Qed.
+
+Lemma sess_init_quiescent cf resp hr : quiescent (pst * list pst) (sess_step cf resp hr) (sess_init resp hr).
+Proof. intros s' r. cbn. discriminate. Qed.
+
+Lemma sess_split_independent cf resp hr : forall pieces,
+  sess_feed_all cf resp hr (sess_init resp hr) pieces = sess_feed cf resp hr (sess_init resp hr) (concat pieces).
+Proof.
+  intros. unfold sess_feed_all, sess_feed.
+  apply feed_all_concat; [apply sess_step_dec | apply sess_step_stable | apply sess_init_quiescent].
+Qed.
+
+(* the first message of a stream is parsed exactly as by a fresh parser, logged, and the parse
+   goes on, from the initial state, with the bytes it left *)
+Lemma sess_run_cons cf resp hr : forall n s b s' r log,
+  stage_done s = false ->
+  run pst (http_step cf false) n s b = (s', r) -> stage_done s' = true ->
+  forall m, (sess_mu (s, log) b < m)%nat ->
+  run (pst * list pst) (sess_step cf resp hr) m (s, log) b =
+  run (pst * list pst) (sess_step cf resp hr) (S (sess_mu (init_pst resp hr, log ++ [s']) r))
+      (init_pst resp hr, log ++ [s']) r.
+Proof.
+  induction n as [|n IH]; intros s b s' r log Hs R Hd m Hm.
+  - cbn in R. inversion R; subst. congruence.
+  - cbn [run] in R. destruct (http_step cf false s b) as [s1 b1| |] eqn:E.
+    + destruct m; [lia|].
+      assert (SD : sess_step cf resp hr (s, log) b =
+                   if stage_done s1 then Adv (init_pst resp hr, log ++ [s1]) b1 else Adv (s1, log) b1).
+      { unfold sess_step. cbn [fst snd]. rewrite E. reflexivity. }
+      destruct (stage_done s1) eqn:D1.
+      * (* the message is complete: the plain run stops here *)
+        assert (Hh : http_step cf false s1 b1 = Halt).
+        { apply http_terminal_halts. unfold stage_done in D1. destruct (p_stage s1); try discriminate; reflexivity. }
+        assert (Rs : (s1, b1) = (s', r)).
+        { destruct n; cbn [run] in R; [exact R|rewrite Hh in R; exact R]. }
+        inversion Rs; subst s1 b1.
+        pose proof (sess_step_dec cf resp hr _ _ _ _ SD) as Dd.
+        etransitivity; [exact (f_equal (fun x => match x with Adv s2 r2 => run (pst * list pst) (sess_step cf resp hr) m s2 r2 | _ => ((s, log), b) end) SD)|].
+        apply (run_fuel (pst * list pst) (sess_step cf resp hr) sess_mu (sess_step_dec cf resp hr)); lia.
+      * pose proof (sess_step_dec cf resp hr _ _ _ _ SD) as Dd.
+        etransitivity; [exact (f_equal (fun x => match x with Adv s2 r2 => run (pst * list pst) (sess_step cf resp hr) m s2 r2 | _ => ((s, log), b) end) SD)|].
+        apply (IH s1 b1 s' r log D1 R Hd). lia.
+    + inversion R; subst. congruence.
+    + inversion R; subst. congruence.
+Qed.
+
+Lemma sess_feed_cons cf resp hr data s' r log :
+  http_feed cf (init_pst resp hr, []) data = (s', r) -> stage_done s' = true ->
+  sess_feed cf resp hr ((init_pst resp hr, log), []) data
+  = sess_feed cf resp hr ((init_pst resp hr, log ++ [s']), []) r.
+Proof.
+  intros F D. unfold http_feed, feed in F. cbn [fst snd app] in F.
+  unfold sess_feed, feed. cbn [fst snd app].
+  assert (I0 : stage_done (init_pst resp hr) = false) by reflexivity.
+  rewrite (sess_run_cons cf resp hr _ _ _ _ _ log I0 F D) by lia. reflexivity.
+Qed.
